@@ -2,7 +2,7 @@
    function `encode`) and every history over AUTHENTICATE / 900-908: CAP END is written
    only in answer to 903; a failure numeric or an empty response makes Connect return an
    ErrEvent and nothing is written afterwards. *)
-Require Import Bytes Utf8 Base64 Sasl SaslSpec FormatLemmas SaslProofs.
+Require Import Bytes Utf8 Base64 CapLib Sasl SaslSpec FormatLemmas SaslProofs.
 From Coq Require Import Lia.
 
 (* ---- small facts ---------------------------------------------------------------- *)
@@ -367,24 +367,13 @@ Section FailClosed.
     destruct cn' as [ns' r']. cbn [cn_ns cn_returned] in Hns, Hret. subst. exact Hf.
   Qed.
 
-  (* authentication starts: CAP ACK naming sasl makes the client send AUTHENTICATE
-     <method> and not CAP END; the connection stays open *)
-  Theorem ack_starts_authentication ns pfx target e_echo :
-    e_echo = false ->
-    feed c (mkConn ns None) (mkEv pfx c_CAP [target; c_ACK; c_sasl] false e_echo) =
-      Ok (mkConn (mkNs false true) None, [Write (plain_ev c_AUTHENTICATE [mech_method m])]).
-  Proof.
-    intros ->. unfold feed, exec_loop_iter, run_handlers, handle_cap_slim.
-    cbn [cn_returned cn_ns ev_echo ev_cmd ev_params]. rewrite Htrack, Hsasl.
-    cbn. rewrite Bool.orb_true_r. reflexivity.
-  Qed.
 End FailClosed.
 
 (* ---- non-vacuity: whole sessions from the initial state ---------------------------- *)
 
 Definition ex_mech : sasl_mech := mkMech (bs "PLAIN") (sasl_plain_encode (bs "jilles") (bs "sesame")).
 Definition ex_cfg : config :=
-  mkCfg (Some ex_mech) [] (mkWebirc [] [] [] []) true (bs "me") (bs "user") (bs "name").
+  mkCfg (Some ex_mech) [] (mkWebirc [] [] [] []) true (bs "me") (bs "user") (bs "name") sort_strs.
 Definition srv (cmd : str) (ps : list str) : event := mkEv (bs ":srv ") cmd ps false false.
 Definition ex_ls := srv c_CAP [c_star; c_LS; c_sasl].
 Definition ex_ack := srv c_CAP [c_star; c_ACK; c_sasl].
